@@ -205,9 +205,11 @@ def _configs(ctx, count):
     base.append(("cplx", 1, 2, 2, 2, "full", "v0static"))
     base.append(("exp2", 1, 1, 3, 2, "full", "d0"))
     base.append(("cplx", 0, 1, 3, 0, "full", "d0v0"))
-    for kind, order, nrb, nel, nrf, ms, ic in base:
+    for bi, (kind, order, nrb, nel, nrf, ms, ic) in enumerate(base):
         n = nrb + nel + nrf
         out.append(_mk_spec(rng, kind, order, nrb, nel, nrf, ms, _ic(rng, ic, n)))
+        if bi % 2 == 0:
+            out[-1]["usage"] = {"f2x_first": True, "f0_dtype": ("int64", "float32", "float64")[(bi // 2) % 3]}
     while len(out) < count:
         kind = rng.choice(KINDS)
         order = rng.choice([0, 1, 1])
@@ -218,6 +220,9 @@ def _configs(ctx, count):
         ic = rng.choice(["zero", "static", "d0v0", "v0static", "d0"])
         out.append(_mk_spec(rng, kind, order, nrb, nel, nrf, ms, _ic(rng, ic, nrb + nel + nrf),
                             explicit_rb=(rng.random() < 0.3)))
+        if rng.random() < 0.45:
+            out[-1]["usage"] = {"f2x_first": rng.random() < 0.6,
+                                "f0_dtype": rng.choice(["float64", "int64", "float32"])}
     return out
 
 
@@ -401,9 +406,27 @@ class _Run:
         self.ts = _build(spec)
         self.nt = nt
         self.f0 = np.array(f0, dtype=float)
+        usage = spec.get("usage") or {}
+        # how the caller uses the object (none of this may change any result):
+        #  * get_f2x asked for BEFORE the generator is started (the usual Henkel-Mar order), on this very object
+        #  * the initial force vector handed over as an integer or single-precision array
+        if usage.get("f2x_first"):
+            g = np.random.default_rng(7)
+            phi = g.normal(size=(2, spec["n"]))
+            with warnings.catch_warnings():
+                warnings.simplefilter("ignore")
+                for velo in (False, True, False):
+                    self.ts.get_f2x(phi, velo)
+        f0arg = self.f0.copy()
+        if usage.get("f0_dtype") == "int64":
+            f0arg = np.round(self.f0).astype(np.int64)
+            self.f0 = f0arg.astype(float)  # (not np.round(f0): that keeps -0.0)
+        elif usage.get("f0_dtype") == "float32":
+            f0arg = self.f0.astype(np.float32)
+            self.f0 = f0arg.astype(float)
         with warnings.catch_warnings():
             warnings.simplefilter("ignore")
-            self.gen, self.d, self.v = self.ts.generator(nt, self.f0.copy(), **_ickw(spec))
+            self.gen, self.d, self.v = self.ts.generator(nt, f0arg, **_ickw(spec))
         self.path = _path(self.ts, spec)
 
     def hidden(self):
@@ -954,7 +977,7 @@ def _oracle_history(spec, nt, f0, ops, every=True):
     tb = _build(spec)  # separate instance for batch
     n = spec["n"]
     feff = np.zeros((n, nt))
-    feff[:, 0] = f0
+    feff[:, 0] = run.f0
     cur = 0
     kw = _ickw(spec)
     h = spec["h"]
